@@ -494,6 +494,19 @@ Finish ==
 Next == BeginItem \/ Step \/ StmtDone \/ Finish
 Spec == Init /\ [][Next]_vars
 
+\* ---- theorems of the semantics itself (action properties checked by TLC on every explored step; a failure is a defect of
+\* this specification, reported as exit 2, never as a verdict about the implementation)
+Owner(c) == IF c.parent = 0 THEN {c.fr} ELSE {c.fr, cors[c.parent].fr}
+\* C04: only code at top level (frame 0), or a top-level loop receiving a yielded value, changes a global binding
+GlobalsOnlyAtTopLevel == [][(globals' # globals /\ status = "run") => (0 \in Owner(cors[cur]))]_vars
+\* C04/C18: an activation frame is changed only by the activation it belongs to (or by the loop owner receiving a yielded value);
+\* frames are never reclaimed or renumbered
+FrameOnlyByOwner == [][status = "run" =>
+                        /\ Len(heap') >= Len(heap)
+                        /\ \A f \in 1..Len(heap) : heap'[f] # heap[f] => f \in Owner(cors[cur])]_vars
+\* C01: within a statement output only grows
+OutputOnlyGrows == [][(status = "run" /\ status' = "run") => (Len(out') >= Len(out) /\ SubSeq(out', 1, Len(out)) = out)]_vars
+
 \* the semantics is total: a running statement always has a successor
 NotStuck == status = "run" => ENABLED (Step \/ StmtDone)
 SpecSane == /\ status \in {"run", "stmtend", "done", "diverged"}
